@@ -540,6 +540,9 @@ AckPos(n) == [id \in {n.roAcks[k].id : k \in DOMAIN n.roAcks} |->
 
 \* sendMsgReadIndexResponse (ReadOnlySafe)
 SendReadIndexResponse(c, n, d, m) ==
+  \* the sole voter (which must be this node) answers from its commit index
+  IF IsSingleton(n) /\ Guard("singleton_read_needs_own_vote", c.id \in VotersIn(n.cfg)) THEN RespondRead(c, n, m, n.commit)
+  ELSE
   LET n1 == [n EXCEPT !.roUnc = Append(@, [from |-> m.from, rid |-> m.entries[1].rid, index |-> n.commit])]
       ctx == HeartbeatCtx(n1)
       n2 == RoRecvAck(n1, c.id, ctx.val)
@@ -700,9 +703,8 @@ StepLeader(c, n, d, m, rto) ==
          IN  OK([n1 EXCEPT !.prs = [k \in DOMAIN @ |-> IF @[k].id # c.id THEN [@[k] EXCEPT !.recentActive = FALSE] ELSE @[k]]])
     [] m.type = "Prop" -> StepLeaderProp(c, n, d, m.entries)
     [] m.type = "ReadIndex" ->
-         IF IsSingleton(n) /\ Guard("singleton_read_needs_own_vote", c.id \in VotersIn(n.cfg)) THEN OK(RespondRead(c, n, m, n.commit))
-         ELSE IF Guard("ro_wait_own_term_commit", ~CommittedEntryInCurrentTerm(n, d)) /\ ~CommittedEntryInCurrentTerm(n, d)
-              THEN OK([n EXCEPT !.pendingReads = Append(@, m)])
+         IF Guard("ro_wait_own_term_commit", ~CommittedEntryInCurrentTerm(n, d)) /\ ~CommittedEntryInCurrentTerm(n, d)
+         THEN OK([n EXCEPT !.pendingReads = Append(@, m)])
          ELSE OK(SendReadIndexResponse(c, n, d, m))
     [] m.type = "ForgetLeader" -> OK(n)
     [] OTHER ->
